@@ -33,8 +33,8 @@ T = {
  'C08': (EX, 'bounded-exhaustive enumeration of region parameters x transforms x point lattices vs analytic geometry',
          'Every region class on a parameter lattice (including rotation angles at and next to multiples of pi/2), every move/rotate/copy/serialise transform and every array layout/chunk size is evaluated on a point lattice and compared with independent analytic predicates outside a boundary band.',
          'parameter and point lattices; boundary band excluded as the statement allows'),
- 'C09': (EX, 'bounded-exhaustive enumeration of category sets/orders x axis kinds x regions vs roi.contains on plotted positions',
-         'All category sets and row orders, the four axis-kind combinations and every region class swept across the integer category positions are turned into selections by the real roi_to_subset_state and compared with the region own contains() on plotted positions.',
+ 'C09': (EX, 'bounded-exhaustive enumeration of category sets/orders x axis kinds x regions vs analytic geometry and roi.contains on plotted positions',
+         'All category sets and row orders, the four axis-kind combinations and every region class swept across the integer category positions are turned into selections by the real roi_to_subset_state and compared with the region own contains() on plotted positions, which in turn must agree with independent analytic geometry away from the boundary.',
          'region geometry itself is C08; boundary band excluded'),
  'C10': (EX, 'bounded-exhaustive enumeration of statistic/histogram requests vs numpy definitions',
          'The complete product of shapes x value palettes x statistics x axes x selections x views x filters x chunk limits (and histogram bins/ranges/log) is computed by the real code and compared with the numpy definition.',
